@@ -190,6 +190,26 @@ impl Outcome {
         }
         None
     }
+    /// hash of the outcome, computed without allocating
+    pub fn hash64(&self) -> u64 {
+        let mut h = Hasher64::new();
+        match self {
+            Outcome::Ok(s) => {
+                h.u64(1);
+                h.bytes(s.as_bytes());
+            }
+            Outcome::Err(v, m) => {
+                h.u64(2);
+                h.bytes(v.as_bytes());
+                h.bytes(m.as_bytes());
+            }
+            Outcome::Panic(m) => {
+                h.u64(3);
+                h.bytes(m.as_bytes());
+            }
+        }
+        h.finish()
+    }
     pub fn class(&self) -> &'static str {
         match self {
             Outcome::Ok(_) => "ok",
